@@ -208,8 +208,7 @@ def one_case(r, m, stats, model_lines, expectations, fails):
         # ties in the due time are ordered by the iteration order of (a copy of) the job set
         jobs = list(sch.jobs)
         due_order = [core.dt_parts(j.datetime)[0] for j in sorted(jobs, key=lambda j: core.dt_parts(j.datetime)[0])]
-        model_lines.append("TABLE %d %d %s %d %s" % (int(not aio), int(tz is not None), enc(heading), len(jobs),
-                                                     " ".join(view_of(j, now_dt, aio) for j in jobs)))
+        model_lines.append("%s %d %s" % (heading, len(jobs), " ".join(view_of(j, now_dt, aio) for j in jobs)))
         expectations.append(("table", text))
         for j in jobs:
             try:
@@ -228,13 +227,13 @@ def one_case(r, m, stats, model_lines, expectations, fails):
             from scheduler.asyncio import Scheduler as AioScheduler
             sch = AioScheduler(tzinfo=tz)
             jobs = build(sch)
-            render(sch, jobs, "tzinfo=%s, #jobs=" % tzs)
+            render(sch, jobs, "SAIO %s" % oenc(tzs))
             sch.delete_jobs()
         asyncio.run(main())
     else:
         pk, pf = r.choice(prio_kinds(m))
         stats["prio." + pk] += 1
-        mx = r.choice([0, 0, 1, 7, 10**9])
+        mx = r.choice([0, 0, 1, 7, 10**9, -3])
         try:
             sch = m["scheduler"].Scheduler(tzinfo=tz, max_exec=mx, priority_function=pf)
         except Exception as e:  # noqa
@@ -242,7 +241,7 @@ def one_case(r, m, stats, model_lines, expectations, fails):
             return
         jobs = build(sch)
         pname = getattr(pf, "__name__", type(pf).__name__)
-        render(sch, jobs, "max_exec=%s, tzinfo=%s, priority_function=%s, #jobs=" % (mx if mx else float("inf"), tzs, pname))
+        render(sch, jobs, "STHR %d %s %s" % (mx, oenc(tzs), enc(pname)))
 
 
 def cutoff_cases(r, m, model_lines, expectations, fails, n):
